@@ -484,6 +484,18 @@ Section CQRS.
     | n :: names' => if existsb (N.eqb n) seen then Some n else first_dup (n :: seen) names'
     end.
   Definition cmd_add_handlers (hs : list handler) : option N := first_dup [] (map hname hs).
+
+  (** addHandlerToRouter, per handler in order: GenerateSubscribeTopic(params{name, handler}),
+      then SubscriberConstructor(params{name, handler name, handler}) *)
+  Inductive revent := RTopic (name hid : N) | RSub (name hid : N).
+  Definition register_handlers (hs : list handler) : list revent :=
+    flat_map (fun h => [RTopic (hname h) (h_id h); RSub (hname h) (h_id h)]) hs.
+  (** CommandProcessor.AddHandlers: all or nothing *)
+  Definition cmd_add_handlers_trace (hs : list handler) : option N * list revent :=
+    match cmd_add_handlers hs with
+    | Some n => (Some n, [])
+    | None => (None, register_handlers hs)
+    end.
 End CQRS.
 
 Arguments wmsg : clear implicits.
